@@ -310,6 +310,7 @@ def shard_run(arg):
 
 def run(tier, seed, work):
     res = vp.Result("C11", tier, seed, "exploration")
+    res.after_error_routes = ['results_that_failed_to_be_written_then_layer_requested_anew']      # routes added in round 12 (a handled failure followed by ordinary work): must have observed something
     shim = vp.build_shim()
     os.chmod(work, 0o755)
     if not vp.nobody_works():
@@ -327,6 +328,7 @@ def run(tier, seed, work):
         res.merge(d)
     res.rule = ("evaluations = delete/recreate operations on generated hostile layer trees, run as uid 65534 under the libc effect tracer. distinct_nontrivial = distinct "
                 "(kind of the layer path [dir or one of 5 symlink kinds], set of inner symlink kinds, set of hostile modes present, operation) tuples")
+    res.required = list(getattr(res, "required", [])) + res.after_error_routes
     res.assumptions = ["fsshim sees libc calls, not raw syscalls (Rust std goes through libc for all of these)", "<name>.toml being a symlink is not generated (not in the quantifier)",
                        "an Err result is accepted as long as nothing outside changed and no mutating call took effect outside"]
     return res
